@@ -223,6 +223,20 @@ class _NegatedOperators(ast.NodeTransformer):
         return node
 
 
+class _MergeNestedIf(ast.NodeTransformer):
+    """`if a: if b: X` (neither has an else, nothing else in the outer body)  ->  `if a and b: X`. One form for a conjunction of guards."""
+
+    def visit_If(self, node):
+        self.generic_visit(node)
+        if not node.orelse and len(node.body) == 1 and isinstance(node.body[0], ast.If) and not node.body[0].orelse:
+            inner = node.body[0]
+            flat = lambda t: list(t.values) if isinstance(t, ast.BoolOp) and isinstance(t.op, ast.And) else [t]
+            test = ast.BoolOp(op=ast.And(), values=flat(node.test) + flat(inner.test))
+            ast.copy_location(test, node.test)
+            node.test, node.body = test, inner.body
+        return node
+
+
 def _negate(test: ast.expr) -> ast.expr:
     if isinstance(test, ast.UnaryOp) and isinstance(test.op, ast.Not):
         return test.operand
@@ -277,6 +291,7 @@ def canonicalise(tree: ast.Module) -> ast.Module:
     for _ in range(2):  # the passes enable each other (a folded loop exposes a return temp, a turned `if` an else-after-jump)
         tree = _NegatedOperators().visit(tree)
         tree = _InlineConditionTemp().visit(tree)
+        tree = _MergeNestedIf().visit(tree)
         tree = _MergeIsinstance().visit(tree)
         tree = _PositiveTests().visit(tree)
         tree = _InlineReturnTemp().visit(tree)
